@@ -36,6 +36,13 @@ for _n in ("parse", "load", "loads"):
 for _n in HANDLERS:
     ALSO.setdefault(_n, [])
     ALSO[_n] = ALSO[_n] + ["C12", "C19"]
+# wave 4 (C02d_1: the pairing of a transform's registers with its function is part of "the program the script denotes"): whatever a load may
+# execute belongs to every property about what a load yields. Exceptions: the evaluator of the error path (c_error) and the printing side.
+for _n in HANDLERS:
+    if _n not in ("load", "loads", "parse"):
+        ALSO[_n] = ALSO[_n] + ["C02", "C01"]
+for _n in ("RegRefTransform", "_expression", "_get_arguments", "exitStatement"):
+    ALSO[_n] = ALSO[_n] + ["C06", "C07", "C08", "C09"]
 for _n in PRINT_PATH:
     ALSO.setdefault(_n, [])
     ALSO[_n] = ALSO[_n] + ["C19", "C13"]
